@@ -224,11 +224,16 @@ pub struct Cfg {
     pub depth: usize,
     /// jobs carry a short TTL and the history may advance time
     pub ttl: bool,
+    /// reduced event alphabet (one kind of death, no kill), used for the deeper histories
+    pub lean: bool,
+    /// the script may issue a request (dispatch / resize / drain) right behind the previous event, without
+    /// letting the system settle in between
+    pub burst: bool,
 }
 
 impl Cfg {
     pub fn name(&self) -> String {
-        format!("{:?}/{:?}/w{}/d{}{}", self.routing, self.discard, self.workers, self.depth, if self.ttl { "/ttl" } else { "" }).replace(['(', ')'], "")
+        format!("{:?}/{:?}/w{}/d{}{}{}", self.routing, self.discard, self.workers, self.depth, if self.ttl { "/ttl" } else { "" }, if self.lean { "/lean" } else { "" }).replace("/lean", if self.burst { "/lean+burst" } else { "/lean" }).replace(['(', ')'], "")
     }
     pub fn factory_queueing(&self) -> bool {
         matches!(self.routing, Routing::Sticky | Routing::Queuer)
@@ -298,6 +303,8 @@ pub enum Event {
     Resize(usize),
     Drain,
     Advance,
+    /// marker: the next event was issued right behind the previous one (no settling in between)
+    NoSettle,
 }
 
 /// everything the oracles need
@@ -377,6 +384,7 @@ pub async fn run(cfg: Cfg) -> Run {
         }
         live_builds.iter().position(|(_, w)| *w == wid).map(|p| live[p].clone())
     };
+    let mut no_wait = false;
     for step in 0..cfg.depth {
         if f.get_status() >= ActorStatus::Stopping {
             break;
@@ -385,17 +393,24 @@ pub async fn run(cfg: Cfg) -> Run {
         let prog = world.in_progress();
         let mut en: Vec<Event> = vec![Event::Dispatch(0), Event::Dispatch(1)];
         for w in 0..3usize {
-            if prog.iter().any(|p| p.0 == w) {
+            if !no_wait && prog.iter().any(|p| p.0 == w) {
                 en.push(Event::Complete(w));
             }
         }
         for w in 0..3usize {
-            if prog.iter().any(|p| p.0 == w) {
-                en.push(Event::KillAfterFinished(w));
-                en.push(Event::DieIn(w, How::Panic));
-                en.push(Event::DieIn(w, How::Err));
+            if no_wait {
+                break; // right behind the previous event only requests to the factory are issued
             }
-            if current_cell(w, &world, &f).is_some() {
+            if prog.iter().any(|p| p.0 == w) {
+                if !cfg.lean {
+                    en.push(Event::KillAfterFinished(w));
+                }
+                en.push(Event::DieIn(w, How::Panic));
+                if !cfg.lean {
+                    en.push(Event::DieIn(w, How::Err));
+                }
+            }
+            if !cfg.lean && current_cell(w, &world, &f).is_some() {
                 en.push(Event::Kill(w));
             }
         }
@@ -490,6 +505,17 @@ pub async fn run(cfg: Cfg) -> Run {
                 let _ = f.cast(FactoryMessage::DrainRequests);
             }
             Event::Advance => vsched::sleep(Duration::from_millis(150)).await,
+            Event::NoSettle => unreachable!(),
+        }
+        // burst mode: the next request may follow at once (both sit in the factory's mailbox together)
+        no_wait = cfg.burst
+            && step + 1 < cfg.depth
+            && matches!(history.last(), Some(Event::Dispatch(_) | Event::Resize(_) | Event::Drain | Event::Complete(_) | Event::DieIn(..)))
+            && vsched::choose_free("settle", 2) == 1;
+        if no_wait {
+            world.log(Ev::Script("(no settling)".into()));
+            history.push(Event::NoSettle);
+            continue;
         }
         vsched::quiesce();
         for j in jobs.iter_mut().filter(|j| j.accepted.is_none() && !j.port_closed) {
@@ -504,7 +530,7 @@ pub async fn run(cfg: Cfg) -> Run {
             let q = ask(&f, 0).await;
             let a = ask(&f, 1).await;
             let c = ask(&f, 2).await;
-            probes.push((step, q, a, c, world.in_progress().len()));
+            probes.push((history.len() - 1, q, a, c, world.in_progress().len()));
         }
     }
     // finale: let every job in progress complete until nothing moves any more
@@ -618,18 +644,40 @@ pub fn plan(property: &'static str, tier: &str) -> Plan {
                 (true, true) => 6,
                 (true, false) => 5,
             };
-            cfgs.push((Cfg { routing: r, discard: *d, workers: 2, depth, ttl: false }, if raced || (thorough && main4) { 1 } else { 0 }));
+            cfgs.push((Cfg { routing: r, discard: *d, workers: 2, depth, ttl: false, lean: false, burst: false }, if raced || (thorough && main4) { 1 } else { 0 }));
+        }
+    }
+    // deeper histories over the reduced alphabet (one kind of death, no kill), default schedule: multi-step
+    // set-ups such as "a queued job survives its worker's death, then the pool is resized, then the key
+    // comes back" need five events
+    for r in routings {
+        let main = matches!(r, Routing::KeyPersistent | Routing::Sticky | Routing::Queuer | Routing::RoundRobin);
+        if !main && !thorough {
+            // the custom hashers share the worker-queued path of KeyPersistent: one of them at depth 5
+            if r != Routing::CustomIdentity {
+                continue;
+            }
+        }
+        cfgs.push((Cfg { routing: r, discard: Discard::None, workers: 2, depth: if thorough { 7 } else { 5 }, ttl: false, lean: true, burst: false }, 0));
+    }
+    // bursts: requests that sit in the factory's mailbox together (a resize right behind a resize, a
+    // dispatch right behind a drain request, ...), so the factory handles the second before the workers
+    // reacted to the first
+    for r in [Routing::Queuer, Routing::KeyPersistent, Routing::Sticky, Routing::RoundRobin] {
+        cfgs.push((Cfg { routing: r, discard: Discard::None, workers: 2, depth: if thorough { 5 } else { 4 }, ttl: false, lean: true, burst: true }, 0));
+        if property == "C15" {
+            cfgs.push((Cfg { routing: r, discard: Discard::Newest(1), workers: 2, depth: if thorough { 4 } else { 3 }, ttl: false, lean: true, burst: true }, 0));
         }
     }
     // TTL expiry with time advancing
     for r in [Routing::Queuer, Routing::KeyPersistent] {
-        cfgs.push((Cfg { routing: r, discard: Discard::None, workers: 1, depth: if thorough { 5 } else { 4 }, ttl: true }, 0));
+        cfgs.push((Cfg { routing: r, discard: Discard::None, workers: 1, depth: if thorough { 5 } else { 4 }, ttl: true, lean: false, burst: false }, 0));
     }
     let mut units = Vec::new();
     for (cfg, bound) in cfgs {
         let ecfg = ExecCfg { stack: 1 << 19, max_steps: 60_000, ..Default::default() };
         let split = if cfg.depth >= 4 { 16 } else { 2 };
-        units.push(Unit::explore_split(XJob::new(format!("{}/{}", property.to_lowercase(), cfg.name()), ecfg, Some(if thorough { bound.max(1) } else { bound }), body(cfg, property)), split));
+        units.push(Unit::explore_split(XJob::new(format!("{}/{}", property.to_lowercase(), cfg.name()), ecfg, Some(if thorough && !cfg.lean { bound.max(1) } else { bound }), body(cfg, property)), split));
     }
     if property == "C15" {
         units.extend(crate::limiter::units(thorough));
@@ -641,7 +689,7 @@ pub fn plan(property: &'static str, tier: &str) -> Plan {
             _ => "C15",
         },
         units,
-        rule: "every event history up to the stated depth over {dispatch(key a|b), complete(w), die(w: panic | Err | kill | kill right after Finished), resize(1|2|3), drain, advance} (only enabled events; enumerated exhaustively as free choices) on a real Factory with gate-controlled real workers, for each routing mode x discard setting; the system runs to quiescence between events and the schedules of those runs are explored within the deviation bound (bound 1 permutes Finished / supervision events / dispatches); oracle: per-job fate ledger and routing monitors computed from the workers', discard handler's, stats layer's and lifecycle hooks' logs; non-trivial = execution with >= 1 branching decision; distinct = distinct (history, schedule) vectors".into(),
+        rule: "every event history up to the stated depth over {dispatch(key a|b), complete(w), die(w: panic | Err | kill | kill right after Finished), resize(1|2|3), drain, advance} (only enabled events; enumerated exhaustively as free choices; in the burst units a request may also follow its predecessor without the system settling in between) on a real Factory with gate-controlled real workers, for each routing mode x discard setting; the system runs to quiescence between events and the schedules of those runs are explored within the deviation bound (bound 1 permutes Finished / supervision events / dispatches); oracle: per-job fate ledger and routing monitors computed from the workers', discard handler's, stats layer's and lifecycle hooks' logs; non-trivial = execution with >= 1 branching decision; distinct = distinct (history, schedule) vectors".into(),
         assumptions: vec![
             "task granularity; zero-cost computation on the virtual clock".into(),
             "2 initial workers (resizable to 1..3), 2 keys, default queue".into(),
